@@ -433,6 +433,7 @@ def run(ctx):
     oracle_stream(ctx)
     feas_exhaustive(ctx)
     large_graph_probe(ctx)
+    iso_midsize(ctx)
 
 
 def one_pair(ctx, b, kind, A, B, iso):
@@ -827,6 +828,40 @@ def oracle_stream(ctx):
 
 
 FINDING_SITE = "persim/gromov_hausdorff.py:int8-key-product"
+
+
+def iso_midsize(ctx):
+    """[T] `isomorphic graphs always receive lower bound 0` on the real code for MANY graphs of 10-15 vertices (trees,
+    sparse random graphs, spiders) against a random relabelling: 2*mGH = 0 is known without any search, so this clause
+    has an exact oracle at sizes where exhaustive mGH is out of reach.  An unsound tightening of the lower bound that
+    only shows on graphs beyond the exhaustive range (>= 11 vertices) is caught here."""
+    if len(ctx.violations) > 5:
+        return
+    g, r = G(), ctx.rng
+    for _ in range(ctx.n(2500, 25000)):
+        n = r.randint(10, 15)
+        kind = r.choice(["tree", "tree", "tree", "gnp", "spider"])
+        if kind == "spider":                       # a few legs of different lengths around a centre
+            edges, v = [], 1
+            while v < n:
+                leg = min(r.randint(1, 4), n - v)
+                prev = 0
+                for _ in range(leg):
+                    edges.append((prev, v)); prev = v; v += 1
+            A = adj_from_edges(n, edges)
+        else:
+            kind, A = gen_graph(r, n, kind)
+        B = relabel(r, A)
+        DX, DY = metric(A), metric(B)
+        st, lb, _ = call(g.find_lb, DX, DY)
+        ok = st == "ok" and float(lb) == 0.0
+        ctx.test("iso_lb_zero_midsize(real code)", ok)
+        ctx.count("iso_midsize:" + kind)
+        if not ok:
+            ctx.violation("isomorphic %d-vertex graphs received lower bound %s/2 (must be 0)" % (n, lb if st == "ok" else "raised " + str(lb)),
+                          {"AG": np.asarray(A).tolist(), "AH": np.asarray(B).tolist(), "order": [0.0, 0.0], "np_seed": 0, "iso": True, "op": "iso"},
+                          found_input=True)
+            return
 
 
 def large_graph_probe(ctx):
